@@ -93,6 +93,10 @@ const (
 	nsOther = "urn:vt:foreign"
 )
 
+// recvMode: build the session under test with ReceiveSession (the local address of a received
+// session is learned from the peer's header only) instead of NewSession
+var recvMode bool
+
 func runVector(v vector) (obs vt.Ev, bad string) {
 	conn := vt.NewConn()
 	ns := stanza.NSClient
@@ -104,7 +108,13 @@ func runVector(v vector) (obs vt.Ev, bad string) {
 		hdr = strings.Replace(hdrIn, "jabber:client", "jabber:server", 1)
 	}
 	conn.FeedString(hdr)
-	sess, err := xmpp.NewSession(context.Background(), jid.MustParse("example.net"), jid.MustParse("me@example.net"), conn, st, nopNeg(ns))
+	var sess *xmpp.Session
+	var err error
+	if recvMode {
+		sess, err = xmpp.ReceiveSession(context.Background(), conn, st, nopNeg(ns))
+	} else {
+		sess, err = xmpp.NewSession(context.Background(), jid.MustParse("example.net"), jid.MustParse("me@example.net"), conn, st, nopNeg(ns))
+	}
 	if err != nil {
 		return nil, "session: " + err.Error()
 	}
@@ -356,19 +366,29 @@ func vectorsMain(args []string) {
 		if err := json.Unmarshal(rd.Bytes(), &v); err != nil {
 			panic(err)
 		}
-		n++
-		obs, bad := runVector(v)
-		if bad != "" {
-			// determinism: run once more before reporting
-			_, bad2 := runVector(v)
-			if bad2 != "" {
-				mism = append(mism, vt.Ev{"vector": v, "observed": obs, "what": bad})
+		for _, recv := range []bool{false, true} {
+			if recv && !v.In.S2S {
+				continue
+			}
+			recvMode = recv
+			n++
+			obs, bad := runVector(v)
+			if bad != "" {
+				// determinism: run once more before reporting
+				_, bad2 := runVector(v)
+				if bad2 != "" {
+					if recv {
+						bad += " [session made by ReceiveSession]"
+					}
+					mism = append(mism, vt.Ev{"vector": v, "observed": obs, "what": bad})
+				}
+			}
+			if len(samples) < 2 {
+				samples = append(samples, vt.Ev{"vector": v, "observed": obs})
 			}
 		}
+		recvMode = false
 		classes[fmt.Sprintf("%s/%s/%s/%s/%v/%v", v.In.Name, v.In.Space, v.In.ID, v.In.From, v.In.S2S, v.In.Form)] = true
-		if len(samples) < 2 {
-			samples = append(samples, vt.Ev{"vector": v, "observed": obs})
-		}
 	}
 	vt.Summary{Evaluations: n, Distinct: len(classes), Mismatches: mism, Samples: samples}.Print()
 }
